@@ -628,6 +628,17 @@ const DEC_ALPHA: [u8; 11] = [0x00, 0x01, 0x07, 0x08, 0x0f, 0x10, 0x7f, 0x80, 0x8
 
 impl Check for C17 {
     fn id(&self) -> &'static str { "C17" }
+    fn miri_plan(&self, tier: Tier) -> Option<Vec<(u64, u64)>> {
+        if tier != Tier::Thorough {
+            return None;
+        }
+        Some({
+            // every packet of <= 3 bytes (259) in 13 shards, plus three blocks of 4-byte packets
+            let mut v: Vec<(u64, u64)> = (0 .. 13).map(|i| (i * 20, 20)).collect();
+            v.extend([(259, 48), (700, 48), (1200, 48)]);
+            v
+        })
+    }
 
     fn rule(&self) -> String {
         "reader: every packet of <=6 bytes over {00,01,05,41,80,ff} (55 987 packets) x every position x 53 operations x both byte orders against a reference model (closure over positions = operation sequences of every depth), plus random longer packets with operation sequences of depth <=12; non-trivial = some operation succeeded and moved the position; distinct by packet (+sequence). codecs: VarInt round trip over blocks of the 32-bit integers, all <=5-byte strings over an 11-symbol VarInt alphabet against a reference decoder, string codec round trips and hostile length prefixes".into()
